@@ -33,7 +33,8 @@ func (pass *RetypeField) processObject(_ *Visitor, _ *ast.Schema, object ast.Obj
 		}
 
 		object.Type.Struct.Fields[i].AddToPassesTrail(fmt.Sprintf("RetypeField[%s → %s]", ast.TypeName(field.Type), ast.TypeName(pass.As)))
-		object.Type.Struct.Fields[i].Type = pass.As
+		// every matching field gets its own copy of the configured type
+		object.Type.Struct.Fields[i].Type = pass.As.DeepCopy()
 
 		if pass.Comments != nil {
 			object.Type.Struct.Fields[i].Comments = pass.Comments
